@@ -11,6 +11,10 @@ Line protocol of the C02 driver: one JSON request per line.
 {"core": expr, "shared": [expr, …], "early": [expr, …]}
     expr = ["leaf", k, size] | ["add", a, b] | ["scatter", t, n, e] | ["transp", t, e] | ["loopsum", n, e]
     → {"stmts": [...], "result": x}      the script `compileCore` emits (nutils' gate = the listed sub-expressions)
+{"exec": expr, "shared": […], "early": […], "rho": [[leaf, "env key", [value, …]], …], "M": [[tag, "env key", [target cell, …]], …],
+ "P": [[tag, [target cell, …]], …], "Q": [[tag, [source cell, …]], …]}
+    → {"wf": bool, "run": [value | null, …] | null, "eval": [value, …]}   the emitted script executed by `execL` from an empty
+      store over ℤ (cells of the result variable), and the denotation `eval`; "env key" = loop indices, innermost first, joined by ","
 {"blockof": [[dep block id, …], …]}  → {"blocks": [[id, scope_ok], …]}
 {"flat": tree}   tree = [child tree, …]  → {"ids": [[…], …]}     block ids in execution order
 -/
@@ -60,6 +64,42 @@ partial def toTree (j : Json) : Except String LoopTree := do
   let a ← j.getArr?
   pure (.node (← a.toList.mapM toTree))
 
+def envKey (env : List Nat) : String := ",".intercalate (env.map toString)
+
+def lookup2 (tbl : List (Nat × String × List Int)) (k : Nat) (env : List Nat) : List Int :=
+  match tbl.find? (fun r => r.1 == k && r.2.1 == envKey env) with
+  | some r => r.2.2
+  | none => []
+
+def parseTbl2 (j : Json) : Except String (List (Nat × String × List Int)) := do
+  let rows ← j.getArr?
+  rows.toList.mapM fun r => do
+    let a ← r.getArr?
+    match a.toList with
+    | [k, e, v] => pure (← k.getNat?, ← e.getStr?, ← (fromJson? v : Except String (List Int)))
+    | _ => throw "bad table row"
+
+def parseTbl1 (j : Json) : Except String (List (Nat × List Nat)) := do
+  let rows ← j.getArr?
+  rows.toList.mapM fun r => do
+    let a ← r.getArr?
+    match a.toList with
+    | [k, v] => pure (← k.getNat?, ← (fromJson? v : Except String (List Nat)))
+    | _ => throw "bad table row"
+
+def lookup1 (tbl : List (Nat × List Nat)) (k : Nat) (j : Nat) : Nat :=
+  match tbl.find? (fun r => r.1 == k) with
+  | some r => r.2.getD j 0
+  | none => 0
+
+/-- decidable version of `WF` for table contexts (scatter maps are checked on the listed environments) -/
+def wfB (Γ : Ctx Int) (envs : Nat → List (List Nat)) : E → Bool
+  | .leaf _ _ => true
+  | .add a b => a.size == b.size && wfB Γ envs a && wfB Γ envs b
+  | .scatter t n e => ((envs t).all fun env => (List.range e.size).all fun j => Γ.M t env j < n) && wfB Γ envs e
+  | .transp t e => ((List.range e.size).all fun j => Γ.P t j < e.size && Γ.Q t j < e.size && Γ.Q t (Γ.P t j) == j && Γ.P t (Γ.Q t j) == j) && wfB Γ envs e
+  | .loopsum _ e => wfB Γ envs e
+
 def handle (line : String) : String :=
   match Json.parse line with
   | .error e => "bad-request " ++ e
@@ -91,6 +131,34 @@ def handle (line : String) : String :=
       | .ok (e, shared, early) =>
         let r := compileCore { shared := fun x => shared.contains x, early := fun x => early.contains x } e
         (Json.mkObj [("stmts", Json.arr (r.1.map sJson).toArray), ("result", r.2)]).compress
+    | .error _ =>
+    match j.getObjVal? "exec" with
+    | .ok c =>
+      match (do
+        let e ← toE c
+        let sl ← (← j.getObjVal? "shared").getArr?
+        let shared ← sl.toList.mapM toE
+        let el ← (← j.getObjVal? "early").getArr?
+        let early ← el.toList.mapM toE
+        let rho ← parseTbl2 (← j.getObjVal? "rho")
+        let m ← parseTbl2 (← j.getObjVal? "M")
+        let p ← parseTbl1 (← j.getObjVal? "P")
+        let q ← parseTbl1 (← j.getObjVal? "Q")
+        pure (e, shared, early, rho, m, p, q)) with
+      | .error e => "bad-request " ++ e
+      | .ok (e, shared, early, rho, m, p, q) =>
+        let Γ : Ctx Int := { ρ := fun k env c => (lookup2 rho k env).getD c 0
+                             M := fun t env j => ((lookup2 m t env).getD j 0).toNat
+                             P := lookup1 p, Q := lookup1 q }
+        let envsOf : Nat → List (List Nat) := fun t => (m.filter (·.1 == t)).map fun r =>
+          if r.2.1 == "" then [] else (r.2.1.splitOn ",").map fun w => w.toNat!
+        let gate : Gate := { shared := fun x => shared.contains x, early := fun x => early.contains x }
+        let r := compileCore gate e
+        let run : Json := match execL Γ [] r.1 (fun _ _ => none) with
+          | some st => Json.arr ((List.range e.size).map fun c => match st r.2 c with | some v => toJson (v : Int) | none => Json.null).toArray
+          | none => Json.null
+        let ev : Json := Json.arr ((List.range e.size).map fun c => toJson (eval Γ [] e c : Int)).toArray
+        (Json.mkObj [("wf", wfB Γ envsOf e), ("run", run), ("eval", ev)]).compress
     | .error _ =>
     match j.getObjValAs? (List (List (List Nat))) "blockof" with
     | .ok qs =>
